@@ -186,6 +186,7 @@ type vDns struct {
 	seen   map[string]bool
 	nMatch int
 	thin   uint64
+	force  bool // emit the correspondence case regardless of the sampling
 }
 
 func (e *vDns) want(p string) bool { return e.prop == "" || e.prop == p }
@@ -214,7 +215,7 @@ func (e *vDns) match(c *vDCfg, tcp bool, in []byte, cls string, nt bool) vRes {
 	for i := 0; i < len(key); i++ {
 		hsh = (hsh ^ uint64(key[i])) * 1099511628211
 	}
-	if !e.seen[key] && (hsh>>17)%mod == 0 && len(in) < 3000 {
+	if !e.seen[key] && ((hsh>>17)%mod == 0 || e.force) && len(in) < 3000 {
 		e.seen[key] = true
 		// the buffer Unpack sees according to the framing of RFC 1035 4.2 and what the library says about it
 		var mb []byte
@@ -488,6 +489,87 @@ func TestVerifMdns(t *testing.T) {
 				}
 			}
 		}
+	}
+
+	// ---- well-formed queries across the size range, both transports (EDNS0 lifts the 512-byte UDP limit of RFC 1035;
+	// the matcher sees at most MaxMatchingBytes): padded to exact sizes with the EDNS0 padding option, many questions,
+	// maximal names. Reference: the library unpacks them and the rules decide.
+	if e.want("C14") || e.want("C04") {
+		type sized struct {
+			note string
+			wire []byte
+			qs   []vQ
+		}
+		var sz []sized
+		padded := func(target int) {
+			build := func(k int) []byte {
+				m := new(dns.Msg)
+				m.Id = uint16(e.rng.U64())
+				m.RecursionDesired = true
+				m.Question = []dns.Question{q("example.com.", dns.TypeA, dns.ClassINET)}
+				opt := &dns.OPT{Hdr: dns.RR_Header{Name: ".", Rrtype: dns.TypeOPT}}
+				opt.SetUDPSize(4096)
+				opt.Option = append(opt.Option, &dns.EDNS0_PADDING{Padding: make([]byte, k)})
+				m.Extra = []dns.RR{opt}
+				return vPack(m)
+			}
+			base := len(build(0))
+			if target < base {
+				return
+			}
+			w := build(target - base)
+			sz = append(sz, sized{fmt.Sprintf("EDNS0-padded query of %d bytes", len(w)), w, []vQ{vQOf(q("example.com.", dns.TypeA, dns.ClassINET))}})
+		}
+		for _, t := range []int{44, 64, 128, 300, 510, 511, 512, 513, 514, 600, 1000, 1232, 1452, 2048, 4096, 8000} {
+			padded(t)
+		}
+		for _, nq := range []int{4, 8, 9, 20, 60} {
+			m := new(dns.Msg)
+			m.Id = uint16(e.rng.U64())
+			var qs []dns.Question
+			var vqs []vQ
+			for i := 0; i < nq; i++ {
+				name := fmt.Sprintf("host-%02d-%s.example.com.", i, strings.Repeat("x", 40))
+				qs = append(qs, q(name, dns.TypeA, dns.ClassINET))
+				vqs = append(vqs, vQOf(qs[i]))
+			}
+			m.Question = qs
+			w := vPack(m)
+			sz = append(sz, sized{fmt.Sprintf("%d questions with long names (%d bytes)", nq, len(w)), w, vqs})
+		}
+		{
+			lab := strings.Repeat("a", 63) + "."
+			name := lab + lab + lab + strings.Repeat("b", 49) + ".example.com."
+			m := new(dns.Msg)
+			m.Question = []dns.Question{q(name, dns.TypeAAAA, dns.ClassINET), q(name, dns.TypeA, dns.ClassINET), q("example.com.", dns.TypeA, dns.ClassINET)}
+			w := vPack(m)
+			sz = append(sz, sized{fmt.Sprintf("three questions with names of maximal length (%d bytes)", len(w)), w,
+				[]vQ{vQOf(m.Question[0]), vQOf(m.Question[1]), vQOf(m.Question[2])}})
+		}
+		for ci, c := range cfgs {
+			if ci%5 != 0 {
+				continue
+			}
+			for _, d := range sz {
+				for _, tcp := range []bool{true, false} {
+					e.force = ci == 0 && len(d.wire) >= 500 && len(d.wire) <= 1300
+					r := e.match(c, tcp, frame(tcp, d.wire), "c14-sizes", true)
+					e.force = false
+					want := vFilterRef(c.m, d.qs)
+					if (r.code == vYes) == want || r.code == vPanic || !e.want("C14") {
+						continue
+					}
+					inp := map[string]any{"config": c.name, "tcp": tcp, "note": d.note, "len": len(d.wire), "verdict": vVerdictNames[r.code],
+						"input_head": hex.EncodeToString(frame(tcp, d.wire)[:40])}
+					if want {
+						e.out.Fail("C14:dns:rejects-valid", "a well-formed query that passes the configured rules was not matched ("+d.note+")", inp)
+					} else {
+						e.out.Fail("C14:dns:accepts-invalid", "a query that the rules reject was matched ("+d.note+")", inp)
+					}
+				}
+			}
+		}
+		out.Stat("sized_messages", len(sz))
 	}
 
 	if e.want("C06") {
